@@ -48,5 +48,11 @@ CHECKS = {
   "text": "For plain, external-interference and joint-processing channels and for the IA solver (K 2..3, unequal antennas, 1..2 streams, symbolic path loss, noise None/0/symbolic, interference power, also after re-randomizing and after a power change through the setter) the engine records the exact numerator and denominator of every reported SINR and proves them equal to |u^H H_kk f|^2 and to the power of all other streams plus external interference plus filtered noise. Scale invariance, Q_k = sum of interfering link covariances, Hermitian, v^H Q v a sum of squares with non-negative weights (PSD), solver/channel agreement, sum capacity and dB forms are discharged.",
   "note": "Structure configuration-concrete (values symbolic); ideal reals; H taken from the channel object (its coherence is C08); positivity of denominators is a requires; larger sizes only in the bounded native check.",
  },
+ "C10": {
+  "category": "other",
+  "technique": "contract-based deductive verification of the solver base class invariant (no stale derived quantities) over all public-setter histories up to length 3 with symbolic matrices; bounded run-time contract checks for the optimisation claims of the real solvers",
+  "text": "Proved (deductive): after every sequence of <=3 public mutators (P scalar/vector/None, set_precoders F|full_F[,P], set_receive_filters W|W_H, randomizeF), reading every derived quantity after each step, full_F, W/W_H, full_W_H, full_W, Ns and P agree with the CURRENT precoders, filters and power (exact polynomial identities on symbolic complex matrices); unit-norm precoders; P setter validation. The optimisation claims - solving completes, closed form nulls cross interference, alternating-min / min-leakage never increase leakage per iteration, MMSE meets the power constraint, the full filters invert the direct channel - are theorems about eigen-subspaces and a Newton search that no contract within the solver's reach decides: they are bounded run-time contract checks on the real solvers (stated bound, never counted as proved), which is why the level is 'other'. Three known findings (min-leakage / max-SINR with 2 streams, closed form without noise).",
+  "note": "np.linalg.solve contract assumed (closed-form adjugate model); structure configuration-concrete in the invariant proof; iterative solvers only bounded (K=3, antennas 2..4, streams 1..2, powers incl. 1e-4..230); convergence is liveness, outside contracts.",
+ },
 }
 NOT_APPLICABLE = {}
